@@ -313,8 +313,10 @@ PROPS['C13'] = dict(
          'non-trivial = (a) x within 2 ulp of a break point or a degenerate shoulder, (b) both degrees strictly inside (0,1), (c) >= 2 active sets on both inputs; distinct = hash of decoded parameters',
     assumptions=COMMON_ASSUME + ['declared exception to oracle independence: the inference reference takes membership values from liba\'s public a_mf dispatcher, which part (a) validates separately',
                                  'at a degenerate break point the core value 1 is required (MATLAB trimf/trapmf convention); a zero-width lins/linz ramp is only required to stay in [0,1] at its step'],
-    units=lambda tier, seed: [Unit('fuzzy', 'exec/C13.cc', ['a.c', 'math.c', 'mf.c', 'fuzzy.c', 'pid.c', 'pid_fuzzy.c'], tape_len=400)],
-    plan={'quick': dict(rc_procs=10, rc_cases=30000, fuzz_procs=6, fuzz_secs=25),
+    units=lambda tier, seed: [Unit(nm, 'exec/C13.cc', ['a.c', 'math.c', 'mf.c', 'fuzzy.c', 'pid.c', 'pid_fuzzy.c'], defs=config_defs(real), tape_len=400,
+                                   config='a_real = %s (A_SIZE_REAL=%d), all A_HAVE_* on' % (ty, real))
+                              for nm, real, ty in (('fuzzy', 8, 'double'), ('fuzzy-f32', 4, 'float'))],
+    plan={'quick': dict(rc_procs=6, rc_cases=30000, fuzz_procs=3, fuzz_secs=25),
           'thorough': dict(rc_procs=8, rc_cases=400000, fuzz_procs=8, fuzz_secs=300)},
     technique='property-based testing: differential check of every membership function against its documented definition in long double, algebraic laws of the operators, and a reference weighted-mean model of the fuzzy inference with an exact-size ASan-guarded scratch buffer; rapidcheck tapes + libFuzzer',
     level_text='generated parameters, break-point-centred inputs, degree pairs and rule bases judged against reference definitions and laws; sampling, not proof',
